@@ -12,6 +12,10 @@ World scenarios (registry + weak sets + activations; C02, C04)
                                          a sequence of any length (split over the agents iff k = n)
   setagents m                            model.agents = […]  (rejected: err Attr)
   remove a | removeall m | unhold a
+  dropmodel m                            the program drops model m and every reference to its agents, then `gc.collect()`:
+                                         the model and its agents are garbage (`M<m> gone` in the dumps; = `dropModel`).
+                                         `bad-op` if a program-made set carries m's generator; from then on every line
+                                         that names model m is `bad-op`, and callbacks no longer create agents in m
   register a | deregister a              model.register_agent(a) / model.deregister_agent(a) called directly by the program
                                          (deregister of an agent that is not registered: err Key)
   shuffle <tgt> | sort <tgt> asc|desc    in place
@@ -84,8 +88,8 @@ def dumpReg (w : World) (m : Nat) (r : Reg) : String :=
   let k := joinNat "," (r.byType.map (·.1))
   s!"M{m} A={a} T={t} K={k}"
 
-def dumpWorld (w : World) : String :=
-  let ms := (w.regs.zipIdx.map fun (r, m) => dumpReg w m r)
+def dumpWorld (w : World) (dropped : List Nat := []) : String :=
+  let ms := (w.regs.zipIdx.map fun (r, m) => if dropped.contains m then s!"M{m} gone" else dumpReg w m r)
   let ss := (List.range w.sets.length).map fun k => s!"S{k}={joinNat "," (members w (.set k))}"
   let live := (List.range w.info.length).filter (alive w)
   " | ".intercalate (ms ++ ss ++ [s!"live={joinNat "," live}"])
@@ -111,6 +115,7 @@ def fmtLog (l : List (Aid × Nat)) : String := ",".intercalate (l.map fun (a, x)
 structure WSt where
   w : World
   scripts : List (Aid × List Action × Bool)
+  dropped : List Nat := []     -- models the program has dropped (`dropmodel`)
 
 def WSt.script (st : WSt) (a : Aid) : List Action := ((st.scripts.lookup a).map (·.1)).getD []
 def WSt.raises (st : WSt) (a : Aid) : Bool := ((st.scripts.lookup a).map (·.2)).getD false
@@ -121,8 +126,24 @@ def keyFn (w : World) (k : String) : Option (Aid → Nat) :=
   if k = "ty" then some (GroupKey.ty.eval w) else if k = "mod2" then some ((GroupKey.uidMod 2).eval w)
   else if k = "mod3" then some ((GroupKey.uidMod 3).eval w) else none
 
-def okW (w : World) (res : String) : String :=
-  if res = "" then s!"ok || {dumpWorld w}" else s!"ok {res} || {dumpWorld w}"
+def okW (w : World) (res : String) (dropped : List Nat := []) : String :=
+  if res = "" then s!"ok || {dumpWorld w dropped}" else s!"ok {res} || {dumpWorld w dropped}"
+
+/-- the model a line names, if any: first argument of the model-indexed commands, the model of an `all:` / `type:` target -/
+def lineModels (ws : List String) : List Nat :=
+  let tgt := fun (t : String) => match t.splitOn ":" with
+    | ["all", m] => m.toNat?.toList | ["type", m, _] => m.toNat?.toList | _ => []
+  match ws with
+  | "script" :: _ :: rest =>
+    (((String.intercalate " " rest).splitOn ";").map words).flatMap fun
+      | ["create", m, _, _, _] => m.toNat?.toList
+      | _ => []
+  | op :: x :: _ =>
+    if ["create", "createn", "setagents", "removeall", "mkset", "dropmodel"].contains op then x.toNat?.toList
+    else if ["shuffle", "sort", "copyset", "items", "do", "shuffledo", "map", "gdo", "gmap"].contains op then tgt x
+    else []
+  | _ => []
+
 
 /-- check that a target denotes something; `err Key` for a missing class, `bad-op` otherwise -/
 def checkTarget (w : World) (t : Target) : Option String :=
@@ -134,7 +155,21 @@ def checkTarget (w : World) (t : Target) : Option String :=
 def worldLine (st : WSt) (ws : List String) : WSt × String :=
   let w := st.w
   let bad := (st, "bad-op")
+  let okW := fun (w : World) (res : String) => okW w res st.dropped
+  -- a dropped model cannot be named any more
+  if (lineModels ws).any st.dropped.contains then bad else
   match ws with
+  | ["dropmodel", m] =>
+    match m.toNat? with
+    | some m =>
+      if m < w.regs.length && !(w.sets.any fun (m', _) => m' == m) then
+        let w' := dropModel w m
+        let notInM : Action → Bool := fun | .create m' _ _ _ => m' != m | _ => true
+        let st' := { st with w := w', dropped := m :: st.dropped,
+                             scripts := st.scripts.map fun (a, acts, r) => (a, acts.filter notInM, r) }
+        (st', _root_.okW w' "" st'.dropped)
+      else bad
+    | none => bad
   | ["model", s] =>
     match parseNats s with
     | some sc => let w' := newModel w ⟨sc⟩; ({ st with w := w' }, okW w' s!"m={w.regs.length}")
